@@ -16,13 +16,13 @@ import (
 
 // HarnessSpec: one symbolic harness of a property with its per-tier options.
 type HarnessSpec struct {
-	Name     string
-	Unwind   int
-	Panics   bool // escaping panics are violations (C09 obligations)
-	Thorough bool // only run in the thorough tier
+	Name      string
+	Unwind    int
+	Panics    bool // escaping panics are violations (C09 obligations)
+	Thorough  bool // only run in the thorough tier
 	QuickOnly bool
-	MaxPaths int
-	Replay   string // "native" (same harness compiled natively), "" = none yet
+	MaxPaths  int
+	Replay    string // "native" (same harness compiled natively), "" = none yet
 }
 
 type PropSpec struct {
@@ -43,19 +43,19 @@ func reg(p *PropSpec) {
 }
 
 type harnessReport struct {
-	Name        string            `json:"harness"`
-	Paths       int               `json:"paths"`
-	PathEnds    map[string]int    `json:"path_ends"`
-	Steps       int64             `json:"ssa_instructions_executed"`
-	Proved      map[string]int    `json:"assertions_proved_on_paths"`
-	Failed      map[string]int    `json:"assertions_failed"`
-	Reached     []string          `json:"vacuity_witnesses"`
-	Unreached   []string          `json:"vacuity_missing"`
-	Inconcl     []string          `json:"inconclusive,omitempty"`
-	Functions   map[string]int64  `json:"functions_encoded"`
-	Models      []string          `json:"models_used,omitempty"`
-	Replayed    int               `json:"replayed"`
-	ReplayNotes []string          `json:"replay_notes,omitempty"`
+	Name        string           `json:"harness"`
+	Paths       int              `json:"paths"`
+	PathEnds    map[string]int   `json:"path_ends"`
+	Steps       int64            `json:"ssa_instructions_executed"`
+	Proved      map[string]int   `json:"assertions_proved_on_paths"`
+	Failed      map[string]int   `json:"assertions_failed"`
+	Reached     []string         `json:"vacuity_witnesses"`
+	Unreached   []string         `json:"vacuity_missing"`
+	Inconcl     []string         `json:"inconclusive,omitempty"`
+	Functions   map[string]int64 `json:"functions_encoded"`
+	Models      []string         `json:"models_used,omitempty"`
+	Replayed    int              `json:"replayed"`
+	ReplayNotes []string         `json:"replay_notes,omitempty"`
 }
 
 func cmdCheck(args []string) int {
